@@ -1,21 +1,23 @@
 #!/bin/bash
-# usage: tools/mutant.sh <SEED-ID e.g. C07A> [check-prop ...]
-# applies seeded/<id>/patch.diff to /repo's working tree, runs the test suite, the demo and the
-# quick checks named (default: the property the seed breaks), then restores /repo
-# (never commits, never stages).
+# usage: tools/mutant.sh <SEED-ID e.g. C07A> [check-prop ...]      (SEED_DIR=/verif/seeded by default)
+# Applies seeded/<id>/patch.diff to a scratch worktree of /repo (never to /repo itself), runs the
+# test suite and the demo there, runs the quick checks named (default: the property the seed
+# breaks) against that worktree (YLD_REPO), and removes the worktree.
 ID=$1; shift
 P=${ID:0:3}
 CHECKS=${@:-$P}
-SEED=/verif/seeded/$ID
-cd /repo || exit 9
-[ -z "$(git status --porcelain)" ] || { echo "repo dirty"; exit 9; }
+SEED=${SEED_DIR:-/verif/seeded}/$ID
+MUT=$(mktemp -d /tmp/yldmut.XXXXXX)
+rmdir $MUT
+git -C /repo worktree add -q --detach $MUT HEAD || exit 9
+trap 'git -C /repo worktree remove --force '$MUT' 2>/dev/null; git -C /repo worktree prune' EXIT
+cd $MUT || exit 9
 git apply $SEED/patch.diff 2>/dev/null || { echo "$ID PATCH-DOES-NOT-APPLY"; exit 8; }
-trap 'cd /repo && git reset -q --hard HEAD && git clean -fdq' EXIT
-T=$(/venv/bin/python -m pytest -q -p no:cacheprovider 2>&1 | tail -1)
-( cd /repo && PYTHONPATH=/repo/src timeout 300 /venv/bin/python $SEED/demo.py >/dev/null 2>&1 ); D=$?
+T=$(PYTHONPATH=$MUT/src /venv/bin/python -m pytest -q -p no:cacheprovider 2>&1 | tail -1)
+( cd $MUT && PYTHONPATH=$MUT/src timeout 300 /venv/bin/python $SEED/demo.py >/dev/null 2>&1 ); D=$?
 R=""
 for C in $CHECKS; do
-  OUT=$(cd /verif && timeout 1200 /venv/bin/python -m harness.run $C 2>&1); RC=$?
+  OUT=$(cd /verif && YLD_REPO=$MUT timeout 1200 /venv/bin/python -m harness.run $C 2>&1); RC=$?
   V=$(echo "$OUT" | grep -c "^VIOLATION")
   N=$(echo "$OUT" | grep -c "no-failing-input-found")
   R="$R $C:rc=$RC,viol=$V,nofail=$N"
